@@ -1,0 +1,23 @@
+"""Observation hooks for external runtime monitors (off unless SKGLM_VERIF=1).
+
+When the environment variable ``SKGLM_VERIF`` is ``"1"`` and a monitor has
+installed a callable in ``sink``, solvers report their intermediate states
+through ``emit``. Arrays are copied before being handed over, so a monitor
+cannot perturb the run. With the variable unset nothing is executed.
+"""
+import os
+
+import numpy as np
+
+ON = os.environ.get("SKGLM_VERIF") == "1"
+sink = None
+
+
+def emit(kind, **payload):
+    """Send an event to the installed sink, if any."""
+    if sink is None:
+        return
+    for key, val in payload.items():
+        if isinstance(val, np.ndarray):
+            payload[key] = val.copy()
+    sink(kind, payload)
